@@ -104,7 +104,7 @@ def part_ngram(ctx):
         # every fit of this class re-compiles its kernel (a fresh tuple converter per instance): ~1 s each
         import random
         rng = random.Random(ctx.seed + n)
-        keep = ctx.pick(160, 500)
+        keep = ctx.pick(160, 300)
         if len(items) > keep:
             ctx.exhaustive = False
             items = rng.sample(items, keep)
